@@ -173,6 +173,7 @@ func runC14(env *Env, s Scenario) {
 	server.Addr = &net.TCPAddr{IP: net.IPv4(127, 0, 0, 1), Port: sc.Port}
 	dialed := ""
 	dials := 0
+	retried := false
 	// a second connection for the retry after a refused Open (same transport object)
 	client2, server2 := simnet.Pipe(k, simnet.NetPlan{SegMode: "whole"}, simnet.NetPlan{SegMode: "whole"}, false)
 	client2.Addr, server2.Addr = client.Addr, server.Addr
@@ -181,7 +182,7 @@ func runC14(env *Env, s Scenario) {
 	simhook.DialFn = func(network, a string) net.Conn {
 		dialed = network + " " + a
 		dials++
-		if dials > 1 {
+		if retried {
 			return client2
 		}
 
@@ -225,7 +226,6 @@ func runC14(env *Env, s Scenario) {
 		return
 	}
 	var openErr, retryErr error
-	retried := false
 	var first []byte
 	done := env.Go("user", func() {
 		if !env.Call("Open", func() { openErr = tr.Open() }) || openErr != nil {
